@@ -57,12 +57,20 @@ def generate(prop, seed, tier):
                      'grad': sem in ('real', 'log') and g.random() < 0.6,
                      'linalg_fail': g.choice([None, None, None, ['all'], [1], [2]]) if sem == 'real' else None,
                      'block_bytes': g.choice([None, None, None, 256, 8]), 'reduce_skip': g.random() < 0.2})
+    cli = None
+    if g.random() < (0.03 if tier == 'quick' else 0.08):
+        cli = {'method': g.choice(['fixed-point', 'newton', 'linear']), 'j': False, 'double': g.random() < 0.7, 'grad_all': g.random() < 0.6,
+               'tol': g.choice([1e-6, 1e-9]), 'kmax': g.choice([1000, 5000])}
     return {'engine': 'options', 'prop': prop, 'seed': seed, 'spec': spec, 'cfgs': cfgs, 'cot_seed': g.randrange(1 << 30),
-            'pres_seed': g.randrange(1 << 30)}
+            'pres_seed': g.randrange(1 << 30), 'cli': cli}
 
 
 def reducers(case):
-    yield from list_reductions(case, ['cfgs'], min_len=1)
+    if case.get('cli'):
+        c = copy.deepcopy(case)
+        c['cli'] = None
+        yield c
+    yield from list_reductions(case, ['cfgs'], min_len=1 if not case.get('cli') else 0)
     for ci, cf in enumerate(case['cfgs']):
         for k, v in (('linalg_fail', None), ('block_bytes', None), ('reduce_skip', False), ('grad', False), ('j_precompute', False)):
             if cf.get(k):
@@ -139,6 +147,34 @@ def run_cfg(F, case, cfg, cot):
             out['msg'] = str(ex)[:300]
         out['counters'] = dict(e.c)
     return out
+
+
+def run_cli(F, case, lin):
+    """the same grammar through `python -OO bin/sum_product.py` (the interpreter mode the script asks for in its shebang)"""
+    import os
+    import subprocess
+    import tempfile
+    from ..core import REPO
+    spec, cli = case['spec'], case['cli']
+    with Env({'alloc': {'mode': 'order', 'seed': case['seed']}, 'dtype': 'float64'}):
+        B = build.build(spec, None, interp=True, dtype=torch.float64)
+        text = json.dumps(F.fgg_to_json(B.fgg))
+    fd, path = tempfile.mkstemp(prefix='simfggs-cli-', suffix='.json')
+    try:
+        with os.fdopen(fd, 'w') as f:
+            f.write(text)
+        cmd = [sys.executable, '-OO', os.path.join(REPO, 'bin', 'sum_product.py'), path, '-m', cli['method'], '-l', repr(cli['tol']), '-k', str(cli['kmax'])]
+        if cli.get('double'):
+            cmd.append('-d')
+        if cli.get('grad_all'):
+            cmd.append('-G')
+        env = dict(os.environ)
+        env['PYTHONPATH'] = REPO
+        env['OMP_NUM_THREADS'] = '1'
+        p = subprocess.run(cmd, env=env, capture_output=True, text=True, timeout=120)
+    finally:
+        os.unlink(path)
+    return p.returncode, p.stdout, p.stderr
 
 
 def execute(case):
@@ -278,7 +314,52 @@ def execute(case):
                     if not bool(ok.all()):
                         V('gradient', ['log-vs-real', cfg['method']], f'd/dlog {n} in the Log semiring {a.tolist()} but w * dZ/dw / Z from the Real semiring {b.tolist()}')
                 counters['gradients.log-vs-real'] = counters.get('gradients.log-vs-real', 0) + 1
-        compare_gradients(results, True)
+        if case.get('cli'):
+            cli = case['cli']
+            rc, out, err = run_cli(F, case, lin)
+            counters['cli.runs'] = 1
+            if cli['method'] == 'linear' and not lin:
+                if rc == 0:
+                    V('cli', ['linear-accepted'], 'bin/sum_product.py -m linear returned a value for a grammar that is not linearly recursive')
+            elif rc != 0 and ("'NoneType' object" in err or 'does not require grad' in err):
+                # -G on a grammar with a factor that cannot influence Z: the script fails to print an absent gradient
+                # (a C03 / CLI matter, not a C11 clause); counted, not judged
+                counters['cli.absent-gradient-crash'] = 1
+            elif rc != 0:
+                V('cli', ['failed', cli['method']], f'python -OO bin/sum_product.py {cli} exited {rc}: {err[-400:]}')
+            else:
+                lines = [l for l in out.splitlines() if l.strip()]
+                z = np.asarray(json.loads(lines[0].replace('Infinity', '1e999')), dtype=np.float64)
+                f32 = not cli.get('double')
+                allow = 1.5 * cli['tol'] * amp + (2e-4 if f32 else 1e-9) * scale * amp
+                if z.shape != zstar.shape or not np.all(np.abs(z - zstar) <= allow):
+                    V('cli', ['value', cli['method']], f'bin/sum_product.py {cli} printed {z.tolist()}, reference {zstar.tolist()}')
+                if cli.get('grad_all'):
+                    # in-process gradient of sum(Z) for comparison
+                    rcfg = {'semiring': 'real', 'method': 'newton', 'j_precompute': False, 'dtype': 'float64', 'grad': True,
+                            'linalg_fail': None, 'block_bytes': None, 'reduce_skip': False}
+                    dense_case = copy.deepcopy(case)     # the JSON carries dense weights: compare with dense in-process weights
+                    for t in dense_case['spec']['terms'].values():
+                        t.pop('pattern', None)
+                    rr = run_cfg(F, dense_case, rcfg, torch.ones_like(cot))
+                    got = {}
+                    for l in lines[1:]:
+                        if l.startswith('grad['):
+                            name = l[5:l.index(']:')]
+                            got[name] = np.asarray(json.loads(l[l.index(']:') + 2:].replace('NaN', '0').replace('Infinity', '1e999')), dtype=np.float64)
+                    if rr['exc'] is None and 'grads' in rr:
+                        for n in spec['terms']:
+                            if n not in got:
+                                V('cli', ['gradient-missing'], f'no grad[{n}] line in the output')
+                            a = rr['grads'][n].numpy()
+                            k = float(max(1.0, amp.max())) ** 2
+                            rt = (5e-3 if f32 else 1e-5) * k
+                            if got[n].shape != a.shape or not np.all(np.abs(got[n] - a) <= rt * np.maximum(1.0, np.abs(a).max() if a.size else 1.0)):
+                                has_zero_w = (np.asarray(spec['terms'][n]['weights'], dtype=np.float64) == 0).any()
+                                V('cli', ['gradient'] + (['fixed-point-structural-zero'] if cli['method'] == 'fixed-point' and has_zero_w else []),
+                                  f'grad[{n}] printed {got[n].tolist()}, in-process {a.tolist()}')
+                        counters['cli.gradients-compared'] = 1
+            log.add('cli', cli['method'], rc)
         counters['optimize.%d' % sys.flags.optimize] = 1
     except Violation as v:
         viol.append(v.to_json())
